@@ -486,19 +486,36 @@ Qed.
 
 Lemma validate_offline_iff req l e : validate_offline req l e = [] <-> OfflineSound req l e.
 Proof.
-  unfold validate_offline, OfflineSound, Newest, tag_if. split.
+  unfold validate_offline, OfflineSound, tag_if. split.
   - intros H.
-    destruct (List.existsb (dentry_eqb e) l && List.forallb (fun x => N.leb (de_mtime x) (de_mtime e)) l) eqn:E1; [|discriminate].
+    destruct (List.existsb (dentry_eqb e) l &&
+              List.forallb (fun x => negb (de_adv x) || N.leb (de_mtime x) (de_mtime e)) l) eqn:E1; [|discriminate].
     destruct (de_whole e) eqn:E2; [|discriminate].
     destruct (String.eqb (de_file e) req) eqn:E3; [|discriminate].
     apply andb_true_iff in E1. destruct E1 as [Ea Eb].
-    split; [split|split; [reflexivity|apply String.eqb_eq; exact E3]].
+    split; [|split; [|split; [reflexivity|apply String.eqb_eq; exact E3]]].
     + apply existsb_exists in Ea. destruct Ea as (y & Hy & Ey). apply dentry_eqb_eq in Ey. subst. exact Hy.
-    + intros x Hx. rewrite forallb_forall in Eb. apply N.leb_le. apply Eb. exact Hx.
-  - intros [[Hin Hmax] [Hw Hf]].
+    + intros x Hx Ha. rewrite forallb_forall in Eb. specialize (Eb x Hx). rewrite Ha in Eb. simpl in Eb.
+      apply N.leb_le. exact Eb.
+  - intros (Hin & Hmax & Hw & Hf).
     assert (Ea : List.existsb (dentry_eqb e) l = true).
     { apply existsb_exists. exists e. split; [exact Hin|apply dentry_eqb_eq; reflexivity]. }
-    assert (Eb : List.forallb (fun x => N.leb (de_mtime x) (de_mtime e)) l = true).
-    { apply forallb_forall. intros x Hx. apply N.leb_le. apply Hmax. exact Hx. }
+    assert (Eb : List.forallb (fun x => negb (de_adv x) || N.leb (de_mtime x) (de_mtime e)) l = true).
+    { apply forallb_forall. intros x Hx. destruct (de_adv x) eqn:Ha; [|reflexivity]. simpl.
+      apply N.leb_le. apply Hmax; assumption. }
     rewrite Ea, Eb, Hw. apply String.eqb_eq in Hf. rewrite Hf. reflexivity.
+Qed.
+
+(* both choices — among all entries (today) and among the advertised ones (the repair) — open an
+   entry that no advertised entry is newer than *)
+Lemma pick_no_adv_newer l e : pick_newest l = Some e ->
+  In e l /\ forall x, In x l -> de_adv x = true -> (de_mtime x <= de_mtime e)%N.
+Proof. intros H. destruct (pick_newest_newest l e H) as [A B]. split; [exact A|intros x Hx _; apply B; exact Hx]. Qed.
+
+Lemma pick_adv_no_adv_newer l e : pick_newest_adv l = Some e ->
+  In e l /\ de_adv e = true /\ forall x, In x l -> de_adv x = true -> (de_mtime x <= de_mtime e)%N.
+Proof.
+  unfold pick_newest_adv. intros H. destruct (pick_newest_newest _ e H) as [A B].
+  apply filter_In in A. destruct A as [A1 A2]. split; [exact A1|]. split; [exact A2|].
+  intros x Hx Ha. apply B. apply filter_In. split; assumption.
 Qed.
